@@ -46,6 +46,10 @@ func main() {
 		os.Exit(cmdExplain(os.Args[2:]))
 	case "sweep":
 		os.Exit(cmdSweep(os.Args[2:]))
+	case "checkall":
+		os.Exit(cmdCheckAll(os.Args[2:]))
+	case "negsweep":
+		os.Exit(cmdNegSweep(os.Args[2:]))
 	case "list":
 		var ids []string
 		for id := range registry {
